@@ -179,9 +179,16 @@ func genLine(r *common.RNG) string {
 	}
 }
 
+// byte sequences that editors and tools put in front of a text (byte-order marks, a NUL,
+// a form feed): data to Parse like any other byte
+var prefixes = []string{"\xef\xbb\xbf", "\xef\xbb\xbf", "\xff\xfe", "\xfe\xff", "\x00", "\f", "\ufeff\ufeff", "\xef\xbb"}
+
 func genText(r *common.RNG) []byte {
 	n := r.Intn(7)
 	var b []byte
+	if r.Chance(1, 12) {
+		b = append(b, common.Pick(r, prefixes)...)
+	}
 	for i := 0; i < n; i++ {
 		b = append(b, genLine(r)...)
 		if i < n-1 || r.Chance(3, 4) {
@@ -207,7 +214,7 @@ func genRandom(r *common.RNG) []byte {
 
 // a well-formed archive by construction (checked with wfArchive before use)
 func genWF(r *common.RNG) *txtar.Archive {
-	wfLines := []string{"hello", "--a --", "-- --", "--  --", " -- a --", "-- a -- x", ">", "", "é ", "--"}
+	wfLines := []string{"hello", "\ufeffhello", "\ufeff", "--a --", "-- --", "--  --", " -- a --", "-- a -- x", ">", "", "é ", "--"}
 	text := func() []byte {
 		var b []byte
 		for i, n := 0, r.Intn(4); i < n; i++ {
@@ -597,6 +604,7 @@ func main() {
 		for _, tail := range []string{"", "\n", "\r", "\r\n", "\nx", "\r\nx\n"} {
 			one([]byte("-- "+string(w)+" --"+tail), "marker-shaped")
 			one([]byte("x\n-- "+string(w)+" --"+tail), "marker-shaped")
+			one([]byte("\xef\xbb\xbf-- "+string(w)+" --"+tail), "marker-shaped")
 		}
 	})
 	// names that a printf-style formatter would misread ('%' is data in a file name)
